@@ -252,7 +252,7 @@ vf_ini_alloc(size_t total, int zero) {
 		__CPROVER_assume(p != NULL);
 		if (zero)
 			memset(p, 0, VF_INI_RECSZ);
-		VF_INI_REQ(p) = total;
+		VF_INI_REQ_SET(p, total);
 		return (p);
 	}
 	if (total == VF_INI_TABLE) { /* line-pointer table */
@@ -260,7 +260,7 @@ vf_ini_alloc(size_t total, int zero) {
 		__CPROVER_assume(p != NULL);
 		if (zero)
 			memset(p, 0, VF_INI_TABLE);
-		VF_INI_REQ(p) = total;
+		VF_INI_REQ_SET(p, total);
 		return (p);
 	}
 	/* any other size is outside the model: reported, never silently accepted */
@@ -299,7 +299,7 @@ realloc(void *ptr, size_t size) {
 	    "realloc: argument is a live heap object");
 	old = VF_INI_REQ(ptr);
 	if (size != 0 && size <= __CPROVER_OBJECT_SIZE(ptr) && nondet_vf_realloc_in_place()) {
-		VF_INI_REQ(ptr) = size; /* the allocator had room: same address */
+		VF_INI_REQ_SET(ptr, size); /* the allocator had room: same address */
 		return (ptr);
 	}
 	if (size == 0) {
